@@ -94,16 +94,30 @@ Fixpoint bspec (n : bnode) (bs : list env) : list (list val) :=
   | BDefer x => shift (bspec x bs)
   end.
 
-(* the Ordering parameter as the Rust signatures compute it; note BJoin / BCross:
-   `B2::PreserveOrderIfBounded<O>` keeps the LEFT ordering whatever the right ordering is *)
+(* the Ordering parameter as the Rust signatures compute it (since /repo 62bf4bf2be4 a join /
+   cross product with a Bounded right side is ordered only if BOTH sides are:
+   `B2::PreserveOrderIfBounded<<O as MinOrder<O2>>::Min>`) *)
 Fixpoint bord (n : bnode) : bool :=
   match n with
   | BBatch _ => true
   | BWeaken _ => false
   | BMap _ x | BFilter _ x | BFlatMap _ x | BUnique x | BDefer x | BGen _ _ x => bord x
-  | BChain x y => bord x && bord y
+  | BChain x y | BJoin x y | BCross x y => bord x && bord y
   | BSort _ | BEnumerate _ => true
-  | BJoin x _ | BCross x _ | BAntiJoin x _ | BCrossSingleton x _ => bord x
+  | BAntiJoin x _ | BCrossSingleton x _ => bord x
+  | BFold _ _ _ | BReduce _ _ => true
+  | BFoldKeyed _ _ _ | BReduceKeyed _ _ => false
+  end.
+(* the typing before the fix: the LEFT ordering, whatever the right ordering is *)
+Fixpoint bord_before_fix (n : bnode) : bool :=
+  match n with
+  | BJoin x _ | BCross x _ => bord_before_fix x
+  | BBatch _ => true
+  | BWeaken _ => false
+  | BMap _ x | BFilter _ x | BFlatMap _ x | BUnique x | BDefer x | BGen _ _ x => bord_before_fix x
+  | BChain x y => bord_before_fix x && bord_before_fix y
+  | BSort _ | BEnumerate _ => true
+  | BAntiJoin x _ | BCrossSingleton x _ => bord_before_fix x
   | BFold _ _ _ | BReduce _ _ => true
   | BFoldKeyed _ _ _ | BReduceKeyed _ _ => false
   end.
@@ -217,19 +231,6 @@ Fixpoint bspec_o (sigma : list val -> list val) (n : bnode) (bs : list env) : li
   | BDefer x => shift (bspec_o sigma x bs)
   end.
 
-(* the REPAIRED ordering: a join / cross product is ordered only if BOTH sides are *)
-Fixpoint bord_fix (n : bnode) : bool :=
-  match n with
-  | BBatch _ => true
-  | BWeaken _ => false
-  | BMap _ x | BFilter _ x | BFlatMap _ x | BUnique x | BDefer x | BGen _ _ x => bord_fix x
-  | BChain x y | BJoin x y | BCross x y => bord_fix x && bord_fix y
-  | BSort _ | BEnumerate _ => true
-  | BAntiJoin x _ | BCrossSingleton x _ => bord_fix x
-  | BFold _ _ _ | BReduce _ _ => true
-  | BFoldKeyed _ _ _ | BReduceKeyed _ _ => false
-  end.
-
 (* what the staged API demands of order-sensitive operators (IsOrdered bounds, commutativity
    obligations); sort over an unordered input is excluded only to keep the proof short *)
 Fixpoint bwf (n : bnode) : Prop :=
@@ -237,10 +238,10 @@ Fixpoint bwf (n : bnode) : Prop :=
   | BBatch _ => True
   | BWeaken x | BMap _ x | BFilter _ x | BFlatMap _ x | BUnique x | BDefer x => bwf x
   | BChain x y | BJoin x y | BCross x y | BAntiJoin x y => bwf x /\ bwf y
-  | BSort x | BEnumerate x | BGen _ _ x | BFoldKeyed _ _ x | BReduceKeyed _ x => bord_fix x = true /\ bwf x
-  | BCrossSingleton x s => bord_fix s = true /\ bwf x /\ bwf s
-  | BFold _ acc x => bwf x /\ (bord_fix x = false -> fold_comm acc)
-  | BReduce f x => bwf x /\ (bord_fix x = false -> comm_assoc f)
+  | BSort x | BEnumerate x | BGen _ _ x | BFoldKeyed _ _ x | BReduceKeyed _ x => bord x = true /\ bwf x
+  | BCrossSingleton x s => bord s = true /\ bwf x /\ bwf s
+  | BFold _ acc x => bwf x /\ (bord x = false -> fold_comm acc)
+  | BReduce f x => bwf x /\ (bord x = false -> comm_assoc f)
   end.
 
 (* emission table for flows with shared (Tee'd) nodes: the model term duplicates a shared subterm at
